@@ -303,6 +303,22 @@ def check_kwonly_layouts(fields, report):
             except Exception as e:  # noqa: BLE001
                 report.violation({"check": "C17.load", "problem": "acceptance", "pair": [kb, kb + "/kw_only"], "features": ["kw_only"]},
                                  f"{fields} with keyword-only fields {kw} ({kb}): load failed: {type(e).__name__}: {str(e)[:150]}", case)
+            if all(req == "req" and not fname.startswith("_") for fname, _, req in fields):
+                # list layout: positions follow the order of the FIELDS (what the dumper emits and what every other kind reads),
+                # not the order of the constructor parameters
+                lst = [copy.deepcopy(TYPES[tkey]["good"][1][0]) for _, tkey, _ in fields]
+                report.evaluations += 1
+                try:
+                    lr = Retort(recipe=[name_mapping(dst_cls, as_list=True)])
+                    got = field_values(lr.load(copy.deepcopy(lst), dst_cls), spec_b)
+                    back = lr.dump(construct(dst_cls, kb, copy.deepcopy(values)), dst_cls)
+                    if not same(got, values) or not same(list(back), lst):
+                        report.violation({"check": "C17.load", "problem": "values", "pair": [kb, kb + "/kw_only"], "features": ["kw_only", "as_list"]},
+                                         f"{fields} with keyword-only fields {kw} ({kb}), as_list: loading {codec.show(lst, 80)} gives "
+                                         f"{codec.show(got, 100)}, dumping the model gives {codec.show(back, 80)}", case)
+                except Exception as e:  # noqa: BLE001
+                    report.violation({"check": "C17.load", "problem": "acceptance", "pair": [kb, kb + "/kw_only"], "features": ["kw_only", "as_list"]},
+                                     f"{fields} with keyword-only fields {kw} ({kb}), as_list: {type(e).__name__}: {str(e)[:150]}", case)
             for ka in plain_kinds:
                 src_cls = build({"kind": ka, "name": "Model", "fields": fields})
                 report.evaluations += 1
